@@ -21,12 +21,15 @@ def scoped_stream(ctx: fw.Ctx, n_random: int):
         [{"x": "1"}],
         [{"x": "1", "y": "2"}, {"x": "3"}],
         [{"v": '"0"'}, {"x": "1", "v": '"1"'}, {"y": "x"}],
+        [{"inherit (pkgs) lib": None, "x": "1"}],
+        [{"x": "1"}, {"inherit y": None, "v": "2"}, {"inherit (p) q": None}],
     ]
     bodies = ["{ a = 1; }", "{\n  a = 1;\n  x = 5;\n}", "rec {\n  version = v;\n}", "{ }"]
-    names = ["x", "y", "v", "zz", "x.k", "a"]
+    names = ["x", "y", "v", "zz", "x.k", "a", "q"]
     for wname, wtpl in docs.WRAPPERS:
         for li, layers in enumerate(layer_sets):
-            lay = "".join("let\n" + "".join(f"  {k} = {v};\n" for k, v in l.items()) + "in\n" for l in layers)
+            lay = "".join("let\n" + "".join((f"  {k};\n" if v is None else f"  {k} = {v};\n") for k, v in l.items())
+                          + "in\n" for l in layers)
             for bi, body in enumerate(bodies):
                 if (li + bi + len(wname) + ctx.seed) % (2 if ctx.quick else 1) != 0:
                     continue
@@ -158,8 +161,10 @@ def observe(ctx: fw.Ctx, hists):
                     continue
                 if depth > n and not (n == 0 and depth == 1 and r.op[0] == "set"):
                     continue  # missing layer: documented
-                if r.op[0] == "rm" and depth <= n and ep.tree_get(layers[n - depth], names) is None:
-                    continue  # missing key
+                if r.op[0] == "rm" and depth <= n and (
+                        ep.tree_get(layers[n - depth], names) is None
+                        or isinstance(ep.tree_get(layers[n - depth], names), (tuple, list))):
+                    continue  # missing key (a name the layer only inherits has no binding to remove)
                 if depth <= n:
                     tgt_layer = layers[n - depth]
                     if any(not isinstance(ep.tree_get(tgt_layer, names[:k]), (dict, type(None)))
@@ -179,6 +184,10 @@ def observe(ctx: fw.Ctx, hists):
                 continue
             layers2 = layer_trees(out)
             body2 = ep.safe_tree(out)
+            if layers2 is None and depth <= n and isinstance(ep.tree_get(layers[n - depth], names[:1]), (tuple, list)):
+                ctx.fail({"clause": "duplicate-in-layer", "via": "inherit", **key}, {**inp, "output": out},
+                         f"{r.op!r} defines a name the layer already inherits: {out!r}")
+                continue
             if layers2 is None or body2 is None or isinstance(body2, tuple):
                 ctx.fail({"clause": "output-shape", **key}, {**inp, "output": out}, f"cannot read the let chain of {out!r}")
                 continue
